@@ -51,15 +51,11 @@ def main():
             os.remove(demo_dst)
         rc, out = sh(["git", "-C", wt, "apply", os.path.join(seed, "patch.diff")])
         if rc != 0:
-            # the tree moved on since the change was written (e.g. the hooks commit): 3-way apply, and keep the rebased diff
-            rc, out = sh(["git", "-C", wt, "apply", "-3", os.path.join(seed, "patch.diff")])
-            if rc == 0:
-                sh(["git", "-C", wt, "reset", "-q"])
-                rc2, rebased = sh(["git", "-C", wt, "diff"])
-                if rc2 == 0 and rebased.strip() and os.environ.get("SEED_REBASE", "1") == "1":
-                    shutil.copy(os.path.join(seed, "patch.diff"), os.path.join(seed, "patch.orig.diff"))
-                    open(os.path.join(seed, "patch.diff"), "w").write(rebased)
-                    res["rebased"] = True
+            # the tree moved on since the change was written (the add-only hooks commit): rebase the patch (lib/rebase_seed.py
+            # re-inserts the hook lines around the change) and apply the rebased patch
+            sh([sys.executable, os.path.join(VERIF, "lib", "rebase_seed.py"), seed])
+            rc, out = sh(["git", "-C", wt, "apply", os.path.join(seed, "patch.diff")])
+            res["rebased"] = rc == 0
         res["applies"] = rc == 0
         if rc != 0:
             res["apply_out"] = out[-500:]
